@@ -404,3 +404,134 @@ def jit_flow(repo, res):
             res.fail(key, f"a module that does not define {want_names[-1]} yields {out7[0]!r} instead of an error", loc)
         except Raised:
             pass
+
+
+@rule(
+    "JIT-DIAGONAL",
+    ["C10"],
+    "compile_forms interpreted with part=\"diagonal\" on stand-in forms: a bilinear form on a mixed space is replaced by the sum of exactly its "
+    "diagonal blocks (j, j) - absent blocks skipped, an all-absent diagonal rejected - before the signature is computed and the generator "
+    "is called; a bilinear form without sub-elements, a linear form and a functional are compiled as given; with part=\"full\" nothing is replaced",
+    min_instances=6,
+)
+def jit_diagonal(repo, res):
+    m = repo.mod(JIT)
+    f = m.func("compile_forms")
+    res.functions.add(f.key)
+    loc = m.line(f.node)
+
+    class Arg(PyNative):
+        def __init__(self, n):
+            self.n = n
+
+        def number(self):
+            return self.n
+
+    class Form(PyNative):
+        def __init__(self, name, numbers, blocks=None):
+            self.name, self.numbers, self.blocks = name, numbers, blocks
+
+        def arguments(self):
+            return [Arg(n) for n in self.numbers]
+
+        def __repr__(self):
+            return self.name
+
+        def __eq__(self, o):
+            return self is o
+
+        def __hash__(self):
+            return id(self)
+
+    class FormSum(PyNative):
+        """ZeroBaseForm + block + block ...: remembers its summands in order"""
+
+        def __init__(self, parts=()):
+            self.parts = list(parts)
+
+        def __add__(self, o):
+            return FormSum(self.parts + [o])
+
+        def __iadd__(self, o):
+            return FormSum(self.parts + [o])
+
+        def __eq__(self, o):
+            if isinstance(o, int) and o == 0:
+                return not self.parts
+            return isinstance(o, FormSum) and o.parts == self.parts
+
+        def __hash__(self):
+            return 0
+
+        def arguments(self):
+            return [Arg(0), Arg(1)]
+
+        def __repr__(self):
+            return "Sum" + repr(self.parts)
+
+    def blk(name):
+        return Form(name, [0, 1])
+
+    b00, b01, b10, b11, b22 = blk("a00"), blk("a01"), blk("a10"), blk("a11"), blk("a22")
+    mixed = Form("mixed", [1, 0, 1, 0], [[b00, b01], [b10, b11]])
+    holey = Form("holey", [0, 1], [[b00, None, b01], [None, None, b10], [b10, b01, b22]])
+    empty = Form("emptydiag", [0, 1], [[None, b01], [b10, None]])
+    plain = Form("plain", [0, 1], "self")
+    linear = Form("linear", [0], [[b00]])
+    functional = Form("functional", [], None)
+
+    def run(forms, part):
+        fs, log = {}, []
+        it = _world(repo, fs, log)
+        it.overrides["ffcx.options.get_options"] = _PyCall(lambda opts=None: {"scalar_type": "float64", "part": part, "table_rtol": 1e-6, "verbosity": 30})
+        it.overrides["ufl.form.Form"] = Form
+        it.overrides["ufl.Form"] = Form
+        it.overrides["ufl.ZeroBaseForm"] = _PyCall(lambda args=(): FormSum())
+
+        def extract_blocks(form, *a, replace_argument=True, **k):
+            log.append(("extract_blocks", form, replace_argument))
+            if form.blocks == "self":
+                return form
+            if form.blocks is None:
+                raise Raised("ValueError: extract_blocks of a form without arguments")
+            return [list(r) for r in form.blocks]
+        it.overrides["ufl.extract_blocks"] = _PyCall(extract_blocks)
+        lst = list(forms)
+        it.call_f(f, [lst], {"options": {"part": part}, "cache_dir": "/cache"})
+        sig = [e for e in log if e[0] == "signature"]
+        comp = [e[1] for e in log if e[0] == "compile"]
+        return lst, (sig[0][1] if sig else None), (comp[0]["objects"] if comp else None), log
+
+    cases = [
+        ("mixed bilinear form, diagonal", [mixed], "diagonal", [FormSum([b00, b11])]),
+        ("bilinear form with absent diagonal block, diagonal", [holey], "diagonal", [FormSum([b00, b22])]),
+        ("bilinear form without sub-elements, linear form and functional, diagonal", [plain, linear, functional], "diagonal", [plain, linear, functional]),
+        ("second of two forms is mixed, diagonal", [linear, mixed], "diagonal", [linear, FormSum([b00, b11])]),
+        ("mixed bilinear form, full", [mixed], "full", [mixed]),
+    ]
+    for label, forms, part, want in cases:
+        key = f"{f.key}:{label}"
+        res.ob(key)
+        try:
+            lst, signed, built, log = run(forms, part)
+        except Raised as e:
+            res.fail(key, f"compile_forms raises ({e.what}) for {label}", loc)
+            continue
+        for what, got in (("the signature is computed over", signed), ("the generator receives", built)):
+            if got is None or list(got) != want:
+                res.fail(key, f"{label}: {what} {got}, expected {want}: part=\"diagonal\" replaces a bilinear form on a mixed space by the sum of its diagonal blocks (j, j) and "
+                         "leaves every other form - and every form under part=\"full\" - as given", loc)
+                break
+        if part == "diagonal":
+            bad = [e for e in log if e[0] == "extract_blocks" and e[2] is not False]
+            if bad:
+                res.fail(key, f"{label}: extract_blocks is called with replace_argument={bad[0][2]}: the blocks would be forms over the sub-spaces (other element "
+                         "dimensions and dof numbering) instead of restrictions of the original arguments", loc)
+    key = f"{f.key}:all-diagonal-blocks-absent-rejected"
+    res.ob(key)
+    try:
+        lst, signed, built, log = run([empty], "diagonal")
+        res.fail(key, f"a bilinear form whose diagonal blocks are all absent is compiled as {built}: its diagonal is zero, which must be reported, not generated "
+                 "as an empty or as the full form", loc)
+    except Raised:
+        pass
